@@ -555,6 +555,39 @@ def variants(stmts):
                 yield stmts[:i] + [(t, s[1], v)] + stmts[i + 1:]
 
 
+def pass_variants(stmts):
+    """Replace one atom by `pass` (a block cannot be emptied otherwise); tried only when no structural
+    reduction applies any more."""
+    for i, s in enumerate(stmts):
+        t = s[0]
+        if t in ("call", "calli", "assign", "assignn", "use", "return", "raise", "break", "continue"):
+            yield stmts[:i] + [("pass",)] + stmts[i + 1:]
+        elif t in ("if", "while", "for"):
+            for v in pass_variants(s[1]):
+                yield stmts[:i] + [(t, v, s[2])] + stmts[i + 1:]
+            if s[2] is not None:
+                for v in pass_variants(s[2]):
+                    yield stmts[:i] + [(t, s[1], v)] + stmts[i + 1:]
+        elif t == "whiletrue":
+            for v in pass_variants(s[1]):
+                yield stmts[:i] + [(t, v)] + stmts[i + 1:]
+        elif t == "try":
+            for v in pass_variants(s[1]):
+                yield stmts[:i] + [(t, v, s[2], s[3], s[4])] + stmts[i + 1:]
+            for k, h in enumerate(s[2]):
+                for v in pass_variants(h):
+                    yield stmts[:i] + [(t, s[1], s[2][:k] + [v] + s[2][k + 1:], s[3], s[4])] + stmts[i + 1:]
+            if s[3] is not None:
+                for v in pass_variants(s[3]):
+                    yield stmts[:i] + [(t, s[1], s[2], v, s[4])] + stmts[i + 1:]
+            if s[4] is not None:
+                for v in pass_variants(s[4]):
+                    yield stmts[:i] + [(t, s[1], s[2], s[3], v)] + stmts[i + 1:]
+        elif t == "with":
+            for v in pass_variants(s[2]):
+                yield stmts[:i] + [(t, s[1], v)] + stmts[i + 1:]
+
+
 def reduce(stmts, still_fails, max_steps=4000):
     """Greedy structural delta debugging."""
     cur = stmts
@@ -562,7 +595,7 @@ def reduce(stmts, still_fails, max_steps=4000):
     progress = True
     while progress and steps < max_steps:
         progress = False
-        for v in variants(cur):
+        for v in itertools.chain(variants(cur), pass_variants(cur)):
             if not _valid(v) or not nonlocal_ok(v):
                 continue
             steps += 1
